@@ -56,7 +56,7 @@ impl Check for C05 {
                 randoms: 1,
             };
             let r = match case.cfg.hasher {
-                crate::reftrie::HasherKind::Blake3 => crate::crash::run_fault_case::<crate::driver::B3>(&fc, &fp, &ctx.scratch),
+                crate::reftrie::HasherKind::Blake3 | crate::reftrie::HasherKind::TailLabel => crate::crash::run_fault_case::<crate::driver::B3>(&fc, &fp, &ctx.scratch),
                 crate::reftrie::HasherKind::Sha2 => crate::crash::run_fault_case::<crate::driver::S2>(&fc, &fp, &ctx.scratch),
             };
             let ci = r.map_err(|v| Violation { step: v.step, msg: format!("[state reached through crash recovery] {}", v.msg) })?;
